@@ -179,6 +179,11 @@ class Engine(ExprEval, NumpyModel, NumpyFuncs):
                 raise Unsupported("call of an opaque callable")
             raise Unsupported(f"call of non-callable {fr!r} (TypeError in python)")
         k = fr.kind
+        if k == "lambda0":          # a nullary accessor whose value is already known
+            v = fr.target
+            if isinstance(v, Arr) and fr.name and fr.name.endswith(("to_list", "tolist")):
+                return Lst(v.shape[0], lambda i, v=v: v.get(i), v.kind)
+            return v
         if k == "spec":
             return self.call_spec(st, fr.target, args, kw, node)
         if k == "builtin":
@@ -428,6 +433,9 @@ class Engine(ExprEval, NumpyModel, NumpyFuncs):
                 return v.length
             if isinstance(v, tuple):
                 return len(v)
+            if isinstance(v, Opaque) and v.tag in ("series", "frame") and isinstance(v.payload, (Arr, Lst)):
+                self.note_assumption("pandas: len(series / frame / index) is the number of rows")
+                return v.payload.shape[0] if isinstance(v.payload, Arr) else v.payload.length
             raise Unsupported(f"len of {v!r} (TypeError in python)")
         if name == "int":
             v = args[0]
